@@ -85,6 +85,8 @@ package goat
 //@     | ncalls("go:(*github.com/avos-io/goat.handler).runStream") == old(ncalls("go:(*github.com/avos-io/goat.handler).runStream"))
 //@   ensures[C06.reset_only_for_streams_not_registered C03.reset_only_for_streams_not_registered C12.reset_only_for_streams_not_registered] atlock(rpc.Id in h.streams) ==>
 //@     | ncalls("call:goat.(*handler).resetStream") == old(ncalls("call:goat.(*handler).resetStream"))
+//@   ensures[C14.stream_context_registered_or_cancelled C07.stream_context_registered_or_cancelled] bound("cancel") ==>
+//@     | (rpc.Id in h.streams && h.streams[rpc.Id].cancel == cancel) || done(cancels(cancel))
 //@   ensures[C12.reset_for_unknown_body] !atlock(rpc.Id in h.streams) && !(rpc.Reset_ != nil && rpc.Reset_.Type == "RST_STREAM") && rpc.Body != nil ==>
 //@     | ncalls("call:goat.(*handler).resetStream") == old(ncalls("call:goat.(*handler).resetStream")) + 1
 //@   ensures[C02.every_message_handed_over C05.every_message_handed_over] atlock(rpc.Id in h.streams) && !(rpc.Reset_ != nil && rpc.Reset_.Type == "RST_STREAM") && result == nil ==> ncalls("send") == old(ncalls("send")) + 1 || closed(atlock(h.streams[rpc.Id].gone))
